@@ -48,6 +48,8 @@ pub fn run(env: &Env) {
     }
     env.ctx.set_rule("roots = suites x keys{k0,k1,k2} x 7 headers x ALL message tuples of length 0..3 over the letter alphabet, plus L in {4..16,255,256,257[,1000,4096]} x {none,16B} x {k0,k1}; moves: sign -> verify -> to_bytes/from_bytes -> verify, reference sign/verify, None/empty square; a state is (suite,key,header,messages); non-trivial = a signature was produced by the implementation and compared with the reference bytes");
     env.ctx.extra("deviation_bound_completed", json!(0));
+    crate::hist::explore_families(env, &['S'], "signing histories");
+    crate::hist::explore_families(env, &['V'], "verification histories");
     par_for(&roots, |_, r| {
         if !env.want(&r.id) || env.ctx.out_of_time() {
             return;
